@@ -39,6 +39,7 @@ pub struct CaseResult {
     pub sample: J,
     pub pairs: BTreeSet<String>,
     pub known_hits: std::collections::BTreeMap<String, (u64, String)>,
+    pub other_hits: std::collections::BTreeMap<String, (u64, String)>,
 }
 
 pub struct Case {
@@ -208,7 +209,7 @@ fn cross_compare(insts: &[Instance], tags: &[&str]) -> Result<(), Violation> {
 }
 
 /// Runs one case; `keep` restricts the executed op indices (shrinking / replay).
-pub fn run_case(case: &Case, keep: Option<&BTreeSet<usize>>, scratch: &Path, case_tag: &str, known: &Arc<BTreeSet<(String, String)>>) -> CaseResult {
+pub fn run_case(case: &Case, keep: Option<&BTreeSet<usize>>, scratch: &Path, case_tag: &str, known: &Arc<BTreeSet<(String, String)>>, focus: &Option<String>) -> CaseResult {
     let base = scratch.join(format!("case-{case_tag}"));
     let _ = std::fs::remove_dir_all(&base);
     std::fs::create_dir_all(&base).expect("scratch dir");
@@ -234,6 +235,7 @@ pub fn run_case(case: &Case, keep: Option<&BTreeSet<usize>>, scratch: &Path, cas
         sample: J::Null,
         pairs: BTreeSet::new(),
         known_hits: Default::default(),
+        other_hits: Default::default(),
     };
 
     let group_tags: Vec<&'static str> = match case.mode {
@@ -253,6 +255,7 @@ pub fn run_case(case: &Case, keep: Option<&BTreeSet<usize>>, scratch: &Path, cas
             scan_cases: if case.profile.name == "scan" { 6 } else { 2 },
             fifo: case.mode == Mode::Fifo,
             known: known.clone(),
+            focus: focus.clone(),
             filter_large_len: case.cfgs.iter().filter_map(|c| c.kv.as_ref().map(|k| k.threshold as usize + 3)).max().unwrap_or(300).max(12),
         };
         match Instance::create(&dir, cfg.clone(), case.uni.clone(), opts) {
@@ -323,6 +326,10 @@ pub fn run_case(case: &Case, keep: Option<&BTreeSet<usize>>, scratch: &Path, cas
             let e = result.known_hits.entry(k.clone()).or_insert((0, m.clone()));
             e.0 += n;
         }
+        for (k, (n, m)) in &inst.other_hits {
+            let e = result.other_hits.entry(k.clone()).or_insert((0, m.clone()));
+            e.0 += n;
+        }
     }
 
     // sample rendering
@@ -356,7 +363,7 @@ pub fn run_case(case: &Case, keep: Option<&BTreeSet<usize>>, scratch: &Path, cas
 }
 
 /// Greedy shrink: drop chunks of ops while a violation with the same signature persists.
-pub fn shrink(case: &Case, v: &Violation, failed_at: usize, scratch: &Path, budget: usize, deadline: Instant, known: &Arc<BTreeSet<(String, String)>>) -> (BTreeSet<usize>, Violation) {
+pub fn shrink(case: &Case, v: &Violation, failed_at: usize, scratch: &Path, budget: usize, deadline: Instant, known: &Arc<BTreeSet<(String, String)>>, focus: &Option<String>) -> (BTreeSet<usize>, Violation) {
     let mut keep: BTreeSet<usize> = (0..=failed_at).collect();
     let mut best = v.clone();
     let mut runs = 0usize;
@@ -373,7 +380,7 @@ pub fn shrink(case: &Case, v: &Violation, failed_at: usize, scratch: &Path, budg
                 continue;
             }
             runs += 1;
-            let r = run_case(case, Some(&trial), scratch, "shrink", known);
+            let r = run_case(case, Some(&trial), scratch, "shrink", known, focus);
             if let Some(nv) = r.violation {
                 if nv.sig == v.sig && nv.tags.iter().any(|t| v.tags.contains(t)) {
                     keep = trial;
